@@ -63,7 +63,14 @@ class Contract:
         self.defines_ = []
         self.effect_fn = None
         self.reveals_ = []
+        self.bounded_note = None
         REGISTRY.append(self)
+
+    def bounded(self, note):
+        """this contract is verified only for pre-states up to a stated structural bound: its obligations are
+        reported under coverage.bounded and never counted as proved."""
+        self.bounded_note = note
+        return self
 
     def reveal(self, text):
         """definitional unfolding of an opaque spec function, evaluated after the body (arguments and
